@@ -272,6 +272,24 @@ def check_case(case, ctr):
         same(C.fromstring(s, 'python-literal'), 'python-literal-string', state=state)
         fp = os.path.join(Ctx.tmp, 'c.py')
         c0.tofile(fp, frmat='python-literal')
+        with open(fp, encoding='utf-8') as f:
+            ftext = f.read()
+        if _norm(ast.literal_eval(ftext)) != _norm(enc if state == 'computed' else no_lat):
+            bad('python-literal-file-is-todict', None, ftext[:300], state=state)
+        for spelled in ('Python-Literal', 'PYTHON-LITERAL'):
+            try:
+                resolves = concepts.formats.Format[spelled] is concepts.formats.Format['python-literal']
+            except Exception:
+                resolves = False        # names are case-sensitive in this tree: nothing to compare
+            if resolves:
+                fq = os.path.join(Ctx.tmp, 'q.py')
+                c0.tofile(fq, frmat=spelled)
+                with open(fq, encoding='utf-8') as f:
+                    if f.read() != ftext:
+                        bad('python-literal-file-format-name-spelling', ftext[:200], spelled,
+                            state=state)
+                if c0.tostring(spelled) != s:
+                    bad('python-literal-string-format-name-spelling', s[:200], spelled, state=state)
         same(C.fromfile(fp, frmat='python-literal'), 'python-literal-file', state=state)
         same(concepts.load(fp), 'load-py', state=state)
         # pickle of the context
